@@ -333,6 +333,54 @@ example : (solverPhase.seq outerPhase).coreOK = true ∧ (solverPhase.seq outerP
 
 example : ({ solverPhase with mustWrite := [] }.seq outerPhase).coreOK = false := by decide
 
+
+/-- **`coreOK` is tight.** If a well-formed description (`mustWrite ⊆ mayWrite`, no log among the attributes read
+    first) is rejected, there is an implementation that conforms to it and a one-fit history after which `fit` leaves
+    some non-log attribute different from what it leaves on a fresh object: either an attribute that is assigned on one
+    input and not on another (it survives the refit), or an attribute that `fit` reads and then overwrites (a counter).
+    So the check rejects only descriptions that admit a history-dependent implementation. -/
+theorem coreOK_tight (e : Est) (hwf : ∀ b, b ∈ e.mustWrite → b ∈ e.mayWrite)
+    (hlogs : ∀ a, a ∈ e.readsFirst → a ∉ e.logs) (h : e.coreOK = false) :
+    ∃ (Inp : Type) (sem : Sem e Inp) (ops : List (Op Inp)) (x : Inp) (a : String),
+      (∀ op ∈ ops, op.wf e) ∧ a ∉ e.logs ∧
+      sem.fit (sem.run (e.fresh (fun _ => 0) (fun _ => 0)) ops) x a ≠
+        sem.fit (e.fresh (fun _ => 0) (paramsAfter (fun _ => 0) ops)) x a := by
+  unfold Est.coreOK at h
+  rw [Bool.and_eq_false_iff] at h
+  rcases h with h | h
+  · -- a stale attribute
+    unfold Est.noStale at h
+    rw [List.all_eq_false] at h
+    obtain ⟨a, ha, hs⟩ := h
+    have hs' : a ∉ e.mustWrite ∧ a ∉ e.logs := by
+      simpa [List.contains_iff_mem] using hs
+    refine ⟨Bool, staleSem e a hwf ha, [.fit true], false, a, ?_, hs'.2, ?_⟩
+    · intro op hop
+      simp only [List.mem_cons, List.not_mem_nil, or_false] at hop
+      subst hop; trivial
+    · exact stale_witness e a hwf ha hs'.1
+  · -- an attribute read first and assigned
+    unfold Est.readsStable at h
+    rw [List.all_eq_false] at h
+    obtain ⟨a, ha, hs⟩ := h
+    have hnl : a ∉ e.logs := hlogs a ha
+    have hm : a ∈ e.mayWrite := by
+      have hs' : ¬ a ∈ e.mayWrite → a ∈ e.logs := by simpa [List.contains_iff_mem] using hs
+      cases hdec : e.mayWrite.contains a with
+      | true => simpa [List.contains_iff_mem] using hdec
+      | false =>
+        have : a ∉ e.mayWrite := by simpa [List.contains_iff_mem] using hdec
+        exact absurd (hs' this) hnl
+    refine ⟨Unit, counterSem e a hwf hm ha, [.fit ()], (), a, ?_, hnl, ?_⟩
+    · intro op hop
+      simp only [List.mem_cons, List.not_mem_nil, or_false] at hop
+      subst hop; trivial
+    · exact counter_witness e a hwf hm ha
+
+/-- non-vacuity: the pinned Louvain shape is well formed and rejected -/
+example : louvainPinned.coreOK = false ∧ (louvainPinned.mustWrite.all fun b => louvainPinned.mayWrite.contains b) = true ∧
+    (louvainPinned.readsFirst.all fun a => !(louvainPinned.logs.contains a)) = true := by decide
+
 /-- a conforming implementation of the repaired Louvain shape: the label is the first draw of the generator that
     `fit` creates from the seed parameter -/
 def seededSem : Sem louvainSeeded Unit where
